@@ -268,8 +268,14 @@ impl Walker {
                     self.expr(a);
                 }
             }
-            Expr::MethodCall { obj, args, .. } => {
+            Expr::MethodCall { obj, types, args, .. } => {
                 self.expr(obj);
+                if let Some(types) = types {
+                    self.c.type_annotations += 1;
+                    for t in types {
+                        self.type_arg(t);
+                    }
+                }
                 for a in args {
                     self.expr(a);
                 }
